@@ -345,6 +345,31 @@ theorem argmax_projection_in_sector {r : SectorRec} (h : checkSector r = true) (
   rw [eH, eW] at hbwd
   exact bwd_sound hbwd _ (argmax_in_cell hL hP r.cert.centre x hk hmax hg hkg)
 
+/-- For a two-stage sector (half-space `π` kept by the subgroup `H = r.sub`, reversed by the other operations) the
+algorithm of `in_fundamental_sector` for the groups 321, 312, 32, (-4) and (-3) — first move the direction into the half-space with a reversing
+operation `s` if necessary, then apply the argmax rule over `H` — lands in the closed sector. -/
+theorem two_stage_projection_in_sector {r : SectorRec} (h : checkSector r = true) {p : Z3} (hh : r.half = some p)
+    (x : R3) {s : M3} (_hs : s ∈ r.ops) (hsx : 0 ≤ p.dotR (s.actR x))
+    {k : M3} (hk : k ∈ r.sub)
+    (hmax : ∀ m ∈ r.sub, pairR r.metric (s.actR x) (m.actR r.cert.centre.toR)
+        ≤ pairR r.metric (s.actR x) (k.actR r.cert.centre.toR))
+    {g : M3} (hg : g ∈ r.sub) (hkg : k.mul g = M3.one) : closedS r.walls (g.actR (s.actR x)) := by
+  unfold checkSector at h
+  simp only [Bool.and_eq_true] at h
+  obtain ⟨⟨⟨⟨⟨⟨⟨_, hgH⟩, _⟩, hpres⟩, _⟩, _⟩, _⟩, hbwd⟩ := h
+  have hH := isGroup_iff.mp hgH
+  have hP : ∀ m ∈ r.ops, preserves r.metric m = true := List.all_eq_true.mp hpres
+  have hsub : ∀ m, m ∈ r.sub ↔ (m ∈ r.ops ∧ M3.cov p m = p) := by
+    intro m; simp [SectorRec.sub, hh, List.mem_filter]
+  have hPH : ∀ m ∈ r.sub, preserves r.metric m = true := fun m hm => hP m ((hsub m).mp hm).1
+  have hc := argmax_in_cell hH hPH r.cert.centre (s.actR x) hk hmax hg hkg
+  intro w hw
+  by_cases e : w = p
+  · subst e
+    rw [← cov_dotR, ((hsub g).mp hg).2]; exact hsx
+  · have hwc : w ∈ r.cellWalls := by simp [SectorRec.cellWalls, hh, List.mem_filter, hw, e]
+    exact bwd_sound hbwd _ hc w hwc
+
 open Classical in
 /-- the "keep the ones already inside the sector" rule around any projection `f` -/
 noncomputable def keepInside (walls : List Z3) (f : R3 → R3) (x : R3) : R3 :=
